@@ -95,3 +95,8 @@ Proof. exact ReachWide.root_values_ab_eq_wide. Qed.
 
 Print Assumptions C08_wide_score_is_minimax.
 Print Assumptions C08_root_values_ab_eq_wide.
+
+(* ---- through any sound cache, fresh or reused, on the wide domain (ClosedWide.v) ---- *)
+From ChessV Require ClosedWide.
+Check @ClosedWide.C09w_cached_search_same.
+Print Assumptions ClosedWide.C09w_cached_search_same.
